@@ -30,7 +30,7 @@ ASSUMPTIONS = [
     "reference engine and laws as in C01; N = 3..4 iterations",
 ]
 TIMEOUT = {"quick": 25, "thorough": 240}
-DEADLINE = {"quick": 80, "thorough": 1700}
+DEADLINE = {"quick": 80, "thorough": 1000}
 MIN_DECIDING = {"quick": 15, "thorough": 150}
 NCASES = {"quick": 56, "thorough": 1000}
 
